@@ -334,7 +334,12 @@ func checkC15Proc(c ProcCase, r *rec.Rec) error {
 }
 
 func genC15Proc(t *rapid.T) ProcCase {
-	pc := genPairCase(t, []string{"list", "set", "mset", "merge"}, func(p *gen.Profile) { p.MaxObj = 6; p.VoidRoot = false })
+	pc := genPairCase(t, []string{"list", "set", "set", "mset", "mset", "setkeys:id", "merge", "set+merge"}, func(p *gen.Profile) {
+		p.MaxObj = 6
+		p.VoidRoot = false
+		p.Big = 35
+		p.ArrayBias = 50
+	})
 	c := ProcCase{A: pc.A, B: pc.B, Bin: gen.Pick(t, "bin", []string{"jd-v2", "jd-top"}), Flags: optFlags(pc.Opts)}
 	if gen.Chance(t, "mergeTranslate", 40) {
 		// merge2jd translation of a multi-key merge patch: order of hunks
